@@ -106,10 +106,14 @@ impl<T: Deref<Target = str>> BaseIriRef<T> {
         buf: &'a mut String,
     ) -> R::OutputRel {
         let protect = self.needs_protection(iri.borrow());
-        let start = buf.len();
+        if protect {
+            // `iri` has no scheme: the resolver replaces whatever `buf` contains,
+            // so the result starts at the beginning of `buf`
+            buf.clear();
+        }
         R::output_rel(self.0.resolve_into(iri.borrow(), buf).map(|()| {
             if protect {
-                protect_first_segment(buf, start);
+                protect_first_segment(buf, 0);
             }
             &buf[..]
         }))
@@ -262,6 +266,14 @@ mod test {
                 assert_eq!(rbir.unwrap().as_iri_ref(), rbi.unwrap().as_iri_ref());
             }
         }
+    }
+
+    #[test]
+    fn resolve_into_used_buffer() {
+        let base = BaseIriRef::new("a/b").unwrap();
+        let mut buf = String::from("previous content");
+        let got = base.resolve_into(IriRef::new("../c:d").unwrap(), &mut buf);
+        assert_eq!(got.as_str(), "./c:d");
     }
 
     #[test]
